@@ -67,6 +67,9 @@ pub struct GenCfg {
     pub shadow_forward_ref: bool,
     /// generate loops / conditionals / macro calls more often
     pub constructs_boost: bool,
+    /// references to the start (`-`) and the end (`+`) of the enclosing block
+    #[serde(default)]
+    pub block_labels: bool,
 }
 
 impl Default for GenCfg {
@@ -96,6 +99,7 @@ impl GenCfg {
             tests: false,
             shadow_forward_ref: true,
             constructs_boost: false,
+            block_labels: true,
         }
     }
     pub fn full() -> GenCfg {
@@ -137,6 +141,8 @@ pub struct BuildStats {
     pub zp_segment: bool,
     pub setpc_in_relocated: usize,
     pub features: BTreeSet<String>,
+    #[serde(default)]
+    pub block_label_refs: usize,
 }
 
 #[derive(Clone, Debug)]
@@ -1183,8 +1189,56 @@ pub fn build(entropy: &[u32], cfg: &GenCfg) -> Built {
     // constants must not (transitively) refer to themselves: a constant may only refer to labels and pure constants
     let mut stats = p2.stats.clone();
     fix_const_cycles(&mut prog);
+    if cfg.block_labels {
+        let seed: Vec<u32> = entropy.iter().rev().map(|v| v.rotate_left(7) ^ 0x9e37_79b9).collect();
+        let mut e3 = Ent::new(&seed);
+        let mut n = 0;
+        add_block_label_refs(prog.main_mut(), false, &mut e3, &mut n);
+        stats.block_label_refs = n;
+    }
     stats.features.extend(b.stats.features.clone());
     Built { prog, stats }
+}
+
+/// References to `-` / `+` inside blocks that have them (braces, labelled blocks, loop and macro bodies; the blocks of
+/// `.if` and `.segment` belong to the block around them).
+fn add_block_label_refs(body: &mut Vec<Stmt>, in_block: bool, e: &mut Ent, n: &mut usize) {
+    for s in body.iter_mut() {
+        match s {
+            Stmt::Label { block: Some(b), .. } | Stmt::Braces(b) | Stmt::Loop { body: b, .. } | Stmt::MacroDef { body: b, .. } => add_block_label_refs(b, true, e, n),
+            Stmt::If { then, els, .. } => {
+                add_block_label_refs(then, in_block, e, n);
+                if let Some(b) = els {
+                    add_block_label_refs(b, in_block, e, n);
+                }
+            }
+            Stmt::Segment { block: Some(b), .. } => add_block_label_refs(b, in_block, e, n),
+            _ => {}
+        }
+    }
+    if !in_block || !e.chance(1, 3) {
+        return;
+    }
+    let small = body.len() <= 12
+        && body.iter().all(|s| match s {
+            Stmt::Instr { .. } | Stmt::Label { block: None, .. } | Stmt::Const { .. } => true,
+            Stmt::Data { vals, size } => vals.len() <= 2 && *size != DataSize::Dword,
+            _ => false,
+        });
+    let minus = Expr::id("-");
+    let plus = Expr::id("+");
+    let st = match e.below(if small { 7 } else { 5 }) {
+        0 => Stmt::Instr { mn: "jmp".into(), form: Form::Plain, operand: Some(minus) },
+        1 => Stmt::Instr { mn: "jmp".into(), form: Form::Plain, operand: Some(plus) },
+        2 => Stmt::Data { size: DataSize::Word, vals: vec![minus, plus] },
+        3 => Stmt::Data { size: DataSize::Word, vals: vec![Expr::bin(plus, BinOp::Sub, minus)] },
+        4 => Stmt::Instr { mn: "jsr".into(), form: Form::Plain, operand: Some(Expr::bin(minus, BinOp::Add, Expr::num(1))) },
+        5 => Stmt::Instr { mn: "bne".into(), form: Form::Plain, operand: Some(minus) },
+        _ => Stmt::Instr { mn: "beq".into(), form: Form::Plain, operand: Some(plus) },
+    };
+    let at = e.below(body.len() + 1);
+    body.insert(at, st);
+    *n += 1;
 }
 
 /// Address-dependent constants may have been given references to other address-dependent constants,
